@@ -111,7 +111,8 @@ Definition law_aead_plain_by_ct : Prop :=
 (* bech32 crate: 8 <-> 5 bit regrouping round-trips; encode succeeds for a well-formed lower-case HRP and decode
    inverts it, returning the same HRP *)
 Definition hrp_char_ok (c : N) : bool := (33 <=? c) && (c <=? 126) && negb ((65 <=? c) && (c <=? 90)).
-Definition hrp_valid (h : text) : bool := negb (list_eqb h []) && forallb hrp_char_ok h.
+(* bech32 check_hrp: 1..83 characters, printable ASCII, and (our HRPs) no upper-case letter, so that decode returns it unchanged *)
+Definition hrp_valid (h : text) : bool := negb (list_eqb h []) && (List.length h <=? 83)%nat && forallb hrp_char_ok h.
 Definition law_base32_roundtrip : Prop :=
   forall bs, bytes_ok bs -> b32_from_base32 P (b32_to_base32 P bs) = Some bs.
 Definition law_bech32_roundtrip : Prop :=
